@@ -868,24 +868,28 @@ class AdvanceCount:
     success of a tail call). Structural recursion over HIR; sets of counts; a loop that advances the index directly is
     'unknown' (the ellipsis matchers consume several states on purpose)."""
 
-    def __init__(self, lib):
+    def __init__(self, lib, var="state_index"):
         self.lib = lib
         self.memo = {}
         self.stack = []
+        self.var = var          # name of the index variable in the function being analysed
 
-    def summary(self, path):
+    def summary(self, path, var="state_index"):
         if path in self.memo:
             return self.memo[path]
         if path in self.stack:
             return {UNKNOWN}
         b = self.lib.body(path)
-        if b is None or not b.hir or "state_index" not in b.param_names:
+        if b is None or not b.hir or var not in b.param_names:
             return {0}
         self.stack.append(path)
+        saved = self.var
+        self.var = var
         try:
             out = set(self.tail(b.hir["body"], {0}))
         finally:
             self.stack.pop()
+            self.var = saved
         self.memo[path] = out or {0}
         return self.memo[path]
 
@@ -909,13 +913,13 @@ class AdvanceCount:
             while a.get("e") in ("addr", "unary"):
                 a = hirq.strip(a["a"])
             # the index itself (or a reborrow of it) is handed over; `&mut state_index.clone()` is a copy the callee may advance freely
-            if a.get("e") == "path" and a.get("local") == "state_index":
+            if a.get("e") == "path" and a.get("local") == self.var:
                 return d
         return None
 
     def is_inc(self, n):
         if n["e"] == "assignop" and n["op"] in ("AddAssign",):
-            return any(m["e"] == "path" and m.get("local") == "state_index" for m in hirq.walk(n["lhs"]))
+            return any(m["e"] == "path" and m.get("local") == self.var for m in hirq.walk(n["lhs"]))
         return False
 
     def cond(self, c):
@@ -1051,14 +1055,14 @@ class AdvanceCount:
             return rr, ss
         if k == "loop":
             body = e["body"]
-            direct = any(self.is_inc(n) or (n["e"] == "assign" and any(m["e"] == "path" and m.get("local") == "state_index" for m in hirq.walk(n["lhs"]))) for n in hirq.walk(body))
+            direct = any(self.is_inc(n) or (n["e"] == "assign" and any(m["e"] == "path" and m.get("local") == self.var for m in hirq.walk(n["lhs"]))) for n in hirq.walk(body))
             if direct:
                 return {UNKNOWN}, {UNKNOWN}
             r1, s1 = self.expr_effect(body, run)       # the successful alternative is tried once
             return run | r1, s1
         if self.is_inc(e):
             return self.add(run, {1}), succ
-        if k == "assign" and any(m["e"] == "path" and m.get("local") == "state_index" for m in hirq.walk(e["lhs"])):
+        if k == "assign" and any(m["e"] == "path" and m.get("local") == self.var for m in hirq.walk(e["lhs"])):
             return {UNKNOWN}, succ
         if k in ("mcall", "call"):
             d = self.callee(e)
@@ -1135,4 +1139,132 @@ def flw11(ctx):
         k += 1
     if k == 0:
         raise AnchorMissing("input_match_ellipsis: the loop over the elements after the ellipsis was not found")
+    return r
+
+
+def flw12(ctx):
+    """context side of the state-index discipline"""
+    r = RuleResult("FLW-12", "context matching: a matched context element advances the state by exactly one (context_match itself by none, the loop around it by one per element)", floor=21)
+    lib = ctx.lib
+    SR = "asca::subrule::SubRule::"
+    cm = ctx.fn(lib, SR + "context_match")
+    PEL = "asca::parser::ParseElement::"
+    ac = AdvanceCount(lib)
+    target = None
+    for m in hirq.matches(cm):
+        if (m.get("sty") or "").lstrip("&").endswith("parser::ParseElement"):
+            target = m
+            break
+    if target is None:
+        raise AnchorMissing("context_match: match on the element kind not found")
+    for arm in target["arms"]:
+        kinds = [(p.get("path") or "")[len(PEL):] for p in hirq.flat_pats(arm["pat"]) if (p.get("path") or "").startswith(PEL)]
+        if hirq.arm_is_pure_panic(arm["body"]):
+            continue
+        counts = ac.tail(arm["body"], {0})
+        label = "/".join(kinds) or "?"
+        if UNKNOWN in counts:
+            r.inst("context_match %s: consumes the remaining states itself (loop) — not counted" % label, fn_loc(cm, arm["ln"]), "accepted:loop", nontrivial=False)
+            continue
+        bad = sorted(c for c in counts if c != 0)
+        r.inst("context_match %s: leaves the state index to its caller (advances by %s)" % (label, sorted(counts)), fn_loc(cm, arm["ln"]), "ok" if not bad else "report")
+        for c in bad:
+            r.report("FLW-12|context_match|%s|%d" % (label, c), fn_loc(cm, arm["ln"]), cm.path,
+                     "a matched %s context element advances the state index by %d although every caller advances it once more: the next context element is skipped" % (label, c))
+    # the loops around context_match
+    n_loops = 0
+    for b in lib.bodies:
+        if b.in_test_mod() or not b.hir or not b.path.startswith(SR) or b.kind == "closure":
+            continue
+        k = 0
+        for lp in [x for x in hirq.walk(b.hir["body"]) if x["e"] == "loop"]:
+            body = lp["body"]
+            inner_loops = [x for x in hirq.walk(body) if x["e"] == "loop" and x is not lp]
+            calls = [x for x in hirq.walk(body) if x["e"] == "mcall" and (x.get("def") or "") == cm.path
+                     and not any(any(x is y for y in hirq.walk(il)) for il in inner_loops)]
+            if not calls:
+                continue
+            # the variable handed to context_match as its state index
+            idx = cm.param_names.index("state_index") - 1
+            a = hirq.strip(calls[0]["args"][idx])
+            while a.get("e") in ("addr", "unary"):
+                a = hirq.strip(a["a"])
+            if a.get("e") != "path" or "local" not in a:
+                continue
+            var = a["local"]
+            # only loops that are driven by that index (`while idx < states.len()`)
+            inner = hirq.strip(body)
+            if inner.get("e") != "if" or not any(m["e"] == "path" and m.get("local") == var for m in hirq.walk(inner["cond"])):
+                continue
+            ac2 = AdvanceCount(lib, var=var)
+            ac2.memo[cm.path] = {0}
+            run, _ = ac2.expr_effect(inner["then"], {0})
+            per = set(run)
+            n_loops += 1
+            ok = per == {1}
+            r.inst("%s: loop #%d over `%s` advances by %s per matched context element" % (b.path.rsplit("::", 1)[-1], k, var, sorted(per, key=str)), fn_loc(b, lp["ln"]), "ok" if ok else "report")
+            if not ok:
+                r.report("FLW-12|%s|loop#%d" % (b.path, k), fn_loc(b, lp["ln"]), b.path,
+                         "each matched context element advances `%s` by %s instead of 1: context elements are skipped or matched twice" % (var, sorted(per, key=str)))
+            k += 1
+    if n_loops < 5:
+        raise AnchorMissing("only %d index-driven loops around context_match found" % n_loops)
+    # the two matchers that are exempt above consume *all* remaining states themselves: each of their success returns
+    # comes right after a loop driven by `state_index < states.len()` (under its "all matched" flag), or sits under a test
+    # that no state is left
+    for fname in ("context_match_ellipsis", "context_match_option"):
+        fb = ctx.fn(lib, SR + fname)
+        root = fb.hir["body"]
+        par = hirq.parent_map(root)
+        k = 0
+        for node in hirq.walk(root):
+            is_true = False
+            if node["e"] == "ret" and node.get("a") is not None and not node.get("exp"):
+                a = hirq.strip(node["a"])
+                is_true = a.get("e") == "call" and (hirq.strip(a["f"]).get("path") or "").endswith("Result::Ok") and hirq.strip(a["args"][0]).get("lit") is True
+            if not is_true:
+                continue
+            # enclosing `if`
+            x = par.get(id(node))
+            iff = None
+            while x is not None:
+                if x.get("e") == "if":
+                    iff = x
+                    break
+                x = par.get(id(x))
+            ok = False
+            why = "it is not conditional"
+            if iff is not None:
+                c = hirq.strip(iff["cond"])
+                # (b) `if *state_index >= states.len()`
+                if c.get("e") == "binary" and c.get("op") in ("Ge", "Gt", "Eq") and any(m["e"] == "path" and m.get("local") == "state_index" for m in hirq.walk(c)) and any(
+                        m["e"] == "mcall" and m["name"] == "len" for m in hirq.walk(c)):
+                    ok = True
+                # (a) `if m` directly after `while *state_index < states.len() { if !context_match(..)? { m = false; break } .. }`
+                elif c.get("e") == "path" and "local" in c:
+                    flag = c["local"]
+                    blk = par.get(id(iff))
+                    while blk is not None and blk.get("e") != "block":
+                        blk = par.get(id(blk))
+                    items = [hirq.strip(s_) for s_ in (blk.get("stmts", []) if blk else [])] + ([hirq.strip(blk["tail"])] if blk and blk.get("tail") is not None else [])
+                    pos_i = [i for i, s_ in enumerate(items) if s_ is iff or any(y is iff for y in hirq.walk(s_))]
+                    prev = items[pos_i[0] - 1] if pos_i and pos_i[0] > 0 else None
+                    if prev is not None and prev.get("e") == "loop":
+                        pin = hirq.strip(prev["body"])
+                        driven = pin.get("e") == "if" and any(m["e"] == "path" and m.get("local") == "state_index" for m in hirq.walk(pin["cond"])) and any(
+                            m["e"] == "mcall" and m["name"] == "len" for m in hirq.walk(pin["cond"]))
+                        clears = any(n_["e"] == "assign" and expr_name(n_["lhs"]) == ("local", flag) and hirq.strip(n_["rhs"]).get("lit") is False for n_ in hirq.walk(prev))
+                        ok = driven and clears
+                        why = "the loop before it is not driven by `state_index < states.len()` or does not clear `%s` on a failed element" % flag
+                    else:
+                        why = "no loop over the remaining states precedes it"
+                else:
+                    why = "its condition is neither `state_index >= states.len()` nor the all-matched flag of the loop over the remaining states"
+            r.inst("%s: success return #%d follows the consumption of all remaining context states" % (fname, k), fn_loc(fb, node["ln"]), "ok" if ok else "report")
+            if not ok:
+                r.report("FLW-12|%s|success#%d" % (fname, k), fn_loc(fb, node["ln"]), fb.path,
+                         "%s returns success although context states may be left unmatched (%s): its callers treat the index as consumed and skip them" % (fname, why))
+            k += 1
+        if k == 0:
+            raise AnchorMissing("%s: no `return Ok(true)` found" % fname)
     return r
